@@ -23,7 +23,9 @@ EXTENDS Naturals, Sequences, FiniteSets, TLC, SequencesExt
 Stmts == {"E", "Ref", "Mov", "Ok", "Err", "Ret", "Pan", "Aw", "In"}
 Kinds == {"sync", "async", "eop", "generic", "lifetime", "method", "amethod", "atrait"}
 IsAsync(k) == k \in {"async", "eop", "amethod", "atrait"}
-Namings == {"default", "short", "custom"}
+\* default_f / short_f: the annotated function is literally called `f` (the name macros derive the path
+\* from a nested helper function that has that name)
+Namings == {"default", "short", "custom", "default_f", "short_f"}
 PropKinds == {"none", "literal", "format", "escaped", "both"}
 
 \* meaning of a body: <<effects, outcome>>; statement i logs with its position
@@ -56,6 +58,6 @@ Inner(body) == Cardinality({i \in DOMAIN Reached(body) : Reached(body)[i][1] = "
 Spans(kind, naming, props, body) ==
   [own |-> IF kind = "eop" THEN Polls(body) ELSE 1,
    inner |-> Inner(body),
-   suffix |-> IsAsync(kind) /\ naming = "default" /\ kind # "atrait",
+   suffix |-> IsAsync(kind) /\ naming \in {"default", "default_f"} /\ kind # "atrait",
    props |-> IF kind = "eop" THEN "none" ELSE props]
 =============================================================================
